@@ -305,7 +305,8 @@ def op_interp_only(gen):
     return A, B, int(np.prod(shape)), ng * nout, {}
 
 
-def op_trans(gen, i, order):
+def op_trans(gen, i, order, conv="oi"):
+    """conv: calling convention of (forward, backward): 'o' out of place, 'i' in place - all four pairs are enumerated"""
     plan = gen.plan
     na = plan.nalpha
     n = 5
@@ -321,7 +322,7 @@ def op_trans(gen, i, order):
         finally:
             plan.coef_order = old
 
-    return (lambda x: run(x, True, False)), (lambda y: run(y, False, True)), n * na, n * na, state
+    return (lambda x: run(x, True, conv[0] == "i")), (lambda y: run(y, False, conv[1] == "i")), n * na, n * na, state
 
 
 def op_composite(gen):
@@ -382,7 +383,8 @@ def initial_cases(tier, seed):
     # 4. interpolation-coefficient transforms (pure linear algebra): both plans, both orders, every i
     for plan, order, fam in itertools.product(["gaussian", "spline"], ["gq", "qg"], ["VJ", "VIJ", "VK"]):
         for i in (-1, 0, 1):
-            cases.append({"op": "trans", "layout": "He-5x14-l2", "fam": fam, "plan": plan, "order": order, "i": i, "threads": 1, "seed": seed})
+            for conv in ("oi", "oo", "io", "ii"):
+                cases.append({"op": "trans", "layout": "He-5x14-l2", "fam": fam, "plan": plan, "order": order, "i": i, "conv": conv, "threads": 1, "seed": seed})
     # 5. composite forward / backward convolution
     for lay, fam, plan, interp in itertools.product(["He-5x14-l2"] + ([] if quick else ["HF-4x14-l2", "He-6x26-l3"]),
                                                     ["VJ", "VI", "VIJ", "VK"], ["gaussian", "spline"],
@@ -508,7 +510,7 @@ def _run_case(case):
     elif op == "interp_only":
         A, B, nx, ny, st = op_interp_only(gen)
     elif op == "trans":
-        A, B, nx, ny, st = op_trans(gen, case["i"], case["order"])
+        A, B, nx, ny, st = op_trans(gen, case["i"], case["order"], case.get("conv", "oi"))
     elif op == "composite":
         A, B, nx, ny, st = op_composite(gen)
     else:
